@@ -77,6 +77,14 @@ def assess(work: Path, cfg: Path, now, cmd, x: Path, ref_files: dict, label: str
     if ut != rt:
         k = next((k for k in sorted(set(ut) | set(rt)) if ut.get(k) != rt.get(k)), None)
         bad.append(("user_text", f"user text of {k} differs from the uninterrupted run: {ut.get(k)!r} vs {rt.get(k)!r}"))
+    else:
+        # "exactly as after an uninterrupted run": also the modify-date stamps (ZID values aside: a killed run burns counters)
+        st, rs = {k: F.stamped_text(v) for k, v in files.items()}, {k: F.stamped_text(v) for k, v in ref_files.items()}
+        if st != rs:
+            k = next(k for k in sorted(st) if st.get(k) != rs.get(k))
+            a, b = st[k].split("\n"), rs[k].split("\n")
+            j = next((i for i in range(min(len(a), len(b))) if a[i] != b[i]), 0)
+            bad.append(("stamp", f"modify dates of {k} differ from the uninterrupted run: line {j + 1} is {a[j]!r}, uninterrupted {b[j]!r}"))
     # unique ZIDs
     zs = [z for v in files.values() for z in F.identity_zids(v)]
     dup = sorted({z for z in zs if zs.count(z) > 1})
@@ -188,8 +196,13 @@ def scenario(args):
                     out["fail"].append({"kind": "harness", "what": f"{label}: kill not reached ({rc1}); trace {tr1}", "phase": phase, "k": k, "torn": torn})
                     continue
                 rc2, _ = F.run_cmd(x, cfg, now, *cmd)
+                # is the kill inside the removal of a page (after one of the commits inside remove_file_by_name, before the page's own commit)?
+                in_removal = False
+                for (kind_i, _t), pl in list(zip(trace, payload))[:k]:
+                    if kind_i == "commit":
+                        in_removal = not pl
                 case = {"phase": phase, "k": k, "torn": torn, "effect": list(trace[k]), "trace": [list(t) for t in trace], "edits": out.get("edits"),
-                        "start_files": zo_files(start), "seed": seed}
+                        "start_files": zo_files(start), "seed": seed, "in_removal_window": in_removal}
                 if rc2 != 0:
                     out["fail"].append({**case, "kind": "rerun_failed", "what": f"{label}: the rerun fails ({rc2})"})
                     continue
@@ -246,6 +259,10 @@ def body(ctx: C.Ctx, proof: C.ProofStatus) -> C.Result:
 
 
 def classify(f: C.Failure, entry: dict) -> bool:
+    case = f.case if isinstance(f.case, dict) else {}
+    if entry.get("classifier") == "stamp_lost_when_killed_inside_page_removal":
+        # exactly this finding: only modify dates differ, and the kill fell between a commit inside remove_file_by_name and the page's own commit
+        return case.get("kind") == "stamp" and case.get("phase") == "reindex" and case.get("in_removal_window") is True
     return False
 
 
@@ -254,7 +271,7 @@ RULE = (
     "later day (changed bodies of indexed notes, new notes, retitled pages and deleted items = changes without write-back, a new page, a deleted page) then `db reindex`.  For EVERY boundary between two external effects "
     "of the uninterrupted run (temporary-file write, atomic rename of a page / file_hash.json / next_ids.json / whitelist, database commit incl. the commits "
     "inside remove_file_by_name, unlink): kill there (BaseException before the effect; rollback as on a real kill), run the same command again, then check: "
-    "rerun exits 0; user text of every page equals the uninterrupted run's; identity ZIDs unique in files and index; index == from-scratch index of a copy "
+    "rerun exits 0; user text AND modify-date stamps of every page equal the uninterrupted run's (ZID values aside); identity ZIDs unique in files and index; index == from-scratch index of a copy "
     "of the files and that create rewrites nothing; hash map describes the files (thorough: a further reindex changes nothing).  Direct (non-temporary) "
     "file writes are also torn (prefix 0 / half); thorough tears every write.  Plus trace correspondence: the effect order and hash-map payloads of every "
     "uninterrupted run equal Model/Crash.lean's effect list for the abstracted store"
